@@ -14,11 +14,11 @@ CHECKS = {
  "C03": dict(design="4/C03", technique="model-based property testing of histories that manufacture stale handles, all access paths x all storage kinds",
    text="Exploration: histories biased to produce dead handles with re-occupied indices; every handle-taking access path is driven through them on all 21 storage configurations and the occupant's component is compared before/after; refused accesses must not emit events, lazy actions on dead targets must not touch the index's occupant; lending-join lookups also through masks that do not depend on aliveness (maybe, entries, negation).",
    note="trusts the component map model; values are instrumented so a leaked/modified occupant value is visible"),
- "C05": dict(design="4/C05", technique="model-based property testing: per-storage component maps compared after every step over 3-8 mixed storages",
+ "C05": dict(design="4/C05", technique="model-based property testing: per-storage component maps compared after every step over 3-8 mixed storages, plus bulk large-world rounds with components",
    text="Exploration: full comparison of every storage (mask, count, every handle lookup, dense as_slice view) with the model after every step, storages made known through all registration paths.",
    note="trusts the component map model"),
  "C09": dict(design="4/C09", technique="model-based property testing of lazy-update histories with an execution log oracle",
-   text="Exploration: closures write an execution log and their own observations; the log must equal the model's FIFO processing exactly (once, in order, nested later, after merge+purge); closures are queued through exec and exec_mut alternately, chains of up to 139 closures each queued by its predecessor.",
+   text="Exploration: closures write an execution log and their own observations; the log must equal the model's FIFO processing exactly (once, in order, nested later, after merge+purge); closures are queued through exec and exec_mut alternately, chains of up to 139 closures each queued by its predecessor, closures that call maintain themselves.",
    note="closure targets are concrete handles resolved when the action is queued; crossbeam SegQueue trusted"),
  "C17": dict(design="4/C17", technique="history invariant (index < running peak; fresh index only when all lower occupied) over generated histories, bulk rounds and scheduled concurrent creations + allocator leak self-check",
    text="Exploration: every creation in every generated history is checked against the running peak of simultaneously not-yet-dead entities; found and led to the repair of finding F1. Bulk large-world rounds apply the same rule at thousands of indices; under the owned scheduler of C10 the rule is checked for concurrent creations (fresh indices only once the free list is exhausted).",
@@ -28,7 +28,7 @@ CHECKS = {
    text="Exploration: generated operation sequences over the complete Storage API (entry family, drain, slices, joins, entity deletion) on all 21 storage/wrapper configurations (incl. zero-sized components and component types without drop glue) and dense / sparse / layer-straddling index pools are compared with a BTreeMap after every step.",
    note="trusts the BTreeMap model in harness/src/stoseq.rs; a worker crash (SIGSEGV in the unsafe storage code) is confirmed by replay and reported as a violation"),
  "C06": dict(design="4/C06", technique="model-based property testing: catalogue of 47 join shapes x generated membership vs set-intersection model, four execution modes",
-   text="Exploration: every shape of a fixed catalogue (arity 1-16, every member kind) is run as join / lend_join next / for_each / get / get_unchecked / join().count() over generated membership incl. all hierarchical-bitset layer boundaries; sequence, items, optional members, write-through and drain effects compared with a set model.",
+   text="Exploration: every shape of a fixed catalogue (arity 1-16, every member kind) is run as join / lend_join next / for_each / get / get_unchecked (ascending, descending, alternating probes) / join().count() / join().skip(k).step_by(s) over generated membership incl. all hierarchical-bitset layer boundaries; sequence, items, optional members, write-through and drain effects compared with a set model.",
    note="shape catalogue is fixed (macro-generated), membership / written subset generated; arities 17-18 cannot be instantiated (no BitAnd impl) so 16 is the maximum"),
  "C07": dict(design="4/C07", technique="differential property testing: par_join vs sequential join on identical worlds, real rayon pools of 1..256 threads plus generated split trees through a hook",
    text="Exploration: 15 ParJoin shapes (incl. nested optional groups) x generated membership, plus joins without a positive member over all 2^24 indices; the multiset of delivered items must equal the sequential join, and every mutable component of the intersection must be written exactly once. The partition of the index space is a generated input (split-tree hook), rayon's run-time stealing is sampled on pools up to 256 threads.",
@@ -56,17 +56,17 @@ CHECKS = {
    text="Exploration: generated system graphs (access vectors over six storages, dependencies, barriers, pool sizes 1-16) are dispatched with exact per-storage reader/writer counters; deterministic probe compares what fetch() really borrows with reads()/writes() for 22 SystemData types and for ReadStorage/WriteStorage of 512 const-generic component types; systems run specs' own set-up, one storage type has no Default.",
    note="the stage planner is shred's (trusted); run-time schedule sampled; systems use specs' own declarations and fetch"),
  "C14": dict(design="4/C14", technique="round-trip property testing (serialize -> deserialize into a shifted world) with a marker-correspondence oracle and a record-shuffling metamorphic relation",
-   text="Exploration: generated worlds with arbitrary reference graphs, two marker implementations, JSON and RON, recursive and non-recursive serialisers; loaded world compared through the marker correspondence; JSON records shuffled; source worlds with churned markers and with unmerged entities on recycled indices.",
+   text="Exploration: generated worlds with arbitrary reference graphs, two marker implementations, JSON and RON, recursive and non-recursive serialisers; loaded world compared through the marker correspondence; JSON records shuffled; three marker implementations (SimpleMarker, UuidMarker, a user-defined marker with extra data); source worlds with churned markers, pending deletions and unmerged entities on recycled indices.",
    note="serde_json / ron trusted; non-recursive serialiser only given references to marked entities (documented domain)"),
  "C15": dict(design="4/C15", technique="model-based property testing of mark/delete/maintain/save/load histories over two worlds",
-   text="Exploration: histories over two worlds with cross loads, repeated loads, stale allocator mappings, deferred markings (LazyBuilder::marked) and explicit ids above the counter; uniqueness of live marker ids and in-place update / create-only-unknown checked after every step.",
+   text="Exploration: histories over two worlds with cross loads, repeated loads, stale allocator mappings, deferred markings (LazyBuilder::marked), deferred loads (inside maintain) and explicit ids above the counter; uniqueness of live marker ids and in-place update / create-only-unknown checked after every step.",
    note="explicit ids are fresh; marker components never removed directly (outside the property's alphabet)"),
  "C20": dict(design="4/C20", technique="differential property testing between runs: transcript of a generated history compared across two in-process worlds and a fresh process",
    text="Exploration: full transcripts (handles, results, joins, events, serialised bytes) of generated single-threaded histories and save/load cases must be identical across two runs in one process (the second with an unrelated third world active between the steps of merge histories) and a run in a fresh process with different hash seeds and address layout.",
    note="teardown destructor order and UuidMarker::new_random excluded by design"),
 
  "C18": dict(design="4/C18", technique="generated-program property testing: a grammar of type definitions is printed as a crate with hand-expanded reference conversions, compiled against the working tree's specs-derive, run, and judged per type",
-   text="Exploration over programs: generated struct / enum shapes (named, tuple, nested, generic, skip attributes, up to 13 fields) and Component declarations; each type's derived conversion is compared value by value with an independently generated field-wise reference (JSON equality, permuted round trip), each derived Component's Storage TypeId with the requested one.",
+   text="Exploration over programs: generated struct / enum shapes (named, tuple, nested, generic with inline or where-clause bounds, skip attributes, variant-level forwarded attributes, up to 13 fields) and Component declarations; each type's derived conversion is compared value by value with an independently generated field-wise reference (JSON equality, permuted round trip through JSON and directly), each derived Component's Storage TypeId with the requested one.",
    note="grammar restricted to shapes the derive supports (at least one converted field per type; no Entity inside tuples/arrays/Option); needs cargo at check time (offline)"),
 }
 
